@@ -861,7 +861,17 @@ func (g *gen) forLoop(d int) *Node {
 		} else {
 			g.feat(kind)
 		}
-		var wrapped *Node = N("cond", NPrim(rapid.SampledFrom([]string{"==", ">", "<"}).Draw(g.t, "jcmp"), NVar(iv), NInt(int64(g.pick(3, "jat")))), j, NNil())
+		guard := NPrim(rapid.SampledFrom([]string{"==", ">", "<"}).Draw(g.t, "jcmp"), NVar(iv), NInt(int64(g.pick(3, "jat"))))
+		var wrapped *Node = N("cond", guard, j, NNil())
+		switch g.pick(4, "jform") {
+		case 0:
+			// the jump itself as an operand of and / or
+			g.feat("jump-as-and-or-operand")
+			wrapped = N("and", guard, j)
+		case 1:
+			g.feat("jump-as-and-or-operand")
+			wrapped = N("or", NPrim("not", guard), j, NInt(0))
+		}
 		for w := g.pick(3, "jwrap"); w > 0; w-- {
 			g.feat("jump-crosses-scope")
 			switch g.pick(3, "jwk") {
@@ -962,7 +972,18 @@ func (g *gen) defnRet(d int, forceRet string) *Node {
 		g.scope.parent.vars[name] = saved
 		op := rapid.SampledFrom([]string{"+", "*", "-"}).Draw(g.t, "recop")
 		var stepExpr *Node
-		switch g.pick(6, "recshape") {
+		switch g.pick(9, "recshape") {
+		case 6:
+			// self call in a NON-final arm of and/or (not a tail position)
+			g.feat("rec-in-nonfinal-and-or-arm")
+			stepExpr = N(rapid.SampledFrom([]string{"and", "or"}).Draw(g.t, "recsc"), rec, step)
+		case 7:
+			g.feat("rec-in-nonfinal-and-or-arm")
+			stepExpr = N("and", NBool(true), rec, step)
+		case 8:
+			// non-final statement of a begin / newScope
+			g.feat("rec-nonfinal-in-begin")
+			stepExpr = N(rapid.SampledFrom([]string{"begin", "newScope"}).Draw(g.t, "recnf"), NTrace(rec), step)
 		case 0:
 			// self call in a let binding (not a tail position)
 			g.feat("rec-in-let-binding")
